@@ -28,18 +28,26 @@ def main():
         order = list(reversed(range(n)))
     else:
         order = [(j + n // 2) % n for j in range(n)]
-    out = []
-    for engine, expr in req["jobs"]:
+    # the selectors are evaluated in a different order as well (S1 then S2 vs S2 then S1): process-wide state keyed by what a
+    # selector evaluates (constructor arguments, selector text) is filled by a different selector first
+    jobs = list(enumerate(req["jobs"]))
+    if req["order"] == "reversed":
+        jobs.reverse()
+    elif req["order"] == "rotated":
+        k = len(jobs) // 3
+        jobs = jobs[k:] + jobs[:k]
+    out = [None] * len(jobs)
+    for j, (engine, expr) in jobs:
         cls = selector.Selector if engine == "interpreted" else selector.CompiledSelector
         res = [None] * n
         try:
             sel = cls(expr)
         except Exception as e:  # noqa: BLE001
-            out.append([["ctor-exc", type(e).__name__]] * n)
+            out[j] = [["ctor-exc", type(e).__name__]] * n
             continue
         for i in order:
             res[i] = list(c10.outcome_of(lambda: sel.match(pool[i])))
-        out.append(res)
+        out[j] = res
     json.dump({"outcomes": out}, sys.stdout)
 
 
